@@ -703,7 +703,7 @@ class BaseProxy(_BaseProxy_):
                 self._Client,
                 self._server,
             ),
-            # exitpriority=10,
+            exitpriority=10,
         )
 
     # Changes to the original version:
@@ -773,13 +773,13 @@ def RebuildProxy(func, token, serializer, kwds):
     """
     Function used for unpickling proxy objects.
     """
-    incref = kwds.pop('incref', True) and not getattr(
-        current_process(), '_inheriting', False
-    )
+    incref = kwds.pop('incref', True)
+    # Unlike the standard lib, this does not skip `incref` while a child process is
+    # unpickling its arguments ("inheriting"): `BaseProxy.__reduce__` of this module has already
+    # incremented the refcount on behalf of the proxy being rebuilt here, hence this proxy
+    # must register its decref finalizer (which `incref=True` does) or that count would never be given back.
     obj = func(token, serializer, incref=incref, **kwds)
     # `func` is either `AutoProxy` or a subclass of `BaseProxy`.
-    # TODO: it appears `incref` is True some times and False some others, affecting by the '_inheriting` condition.
-    # Understand the `'_inheriting'` thing.
 
     if incref:
         # Counter the extra `incref` that's done in `BaseProxy.__init__`.
